@@ -1,5 +1,6 @@
 import PhononModel.Model.DynMat
 import PhononModel.Model.Symmetrize
+import PhononModel.Model.RecipOps
 import PhononModel.Model.Wire
 namespace PhononModel.DynMatWire
 open PhononModel PhononModel.Wire
@@ -16,6 +17,10 @@ Line protocol of the dynamical-matrix model (served by `Drivers/C02.lean` and `D
   svinv np nf ns nsv p2s[np] s2p[ns] multi[ns*np*2] pi[np] pinv[np] kap[np*ns] kinv[np*ns] sig[nsv] sinv[nsv]
         → `svecsInvariantOk` (true | false)
   svdev nsv R[9] sig[nsv] svecs[nsv*3] tol                              → true | false
+  batch nq np nf ns nsv p2s[np] s2p[ns] multi[ns*np*2] ph[nq*nsv*2] mm[np*np] fc[nf*ns*9]
+        → the flat output buffer of the q-point loop, `nq·(3np)²` complex entries
+  freq factor n (ev sqrt|ev|)[n]                                         → n frequencies
+  ptgops tr n rots[9n]   → `<isGroupOk> <#ptg> ptg_ops... | <#recip> reciprocal_rotations...`
   denseadrs ns np smulti[ns*np]                                          → the `ns*np` addresses
 Numbers are exact (`n/d`).  Anything malformed (wrong count, index out of range, multiplicity 0,
 address range outside the stored vectors) → `bad-op`.
@@ -173,6 +178,46 @@ def handle (line : String) : String :=
           let d := img - tgt
           decide (d ≤ tol) && decide (-tol ≤ d) && decide (sig.getD l nsv < nsv)
       pure (toString ok)
+    | "batch" =>
+      let (nq, c) ← c.nat?
+      let (np, c) ← c.nat?
+      let (nf, c) ← c.nat?
+      let (ns, c) ← c.nat?
+      let (nsv, c) ← c.nat?
+      let (T, c) ← readDTables c np nf ns nsv
+      let (phv, c) ← c.rats? (nq * nsv * 2)
+      let (mm, c) ← c.rats? (np * np)
+      let (fc, c) ← c.rats? (nf * ns * 9)
+      if !c.atEnd then none
+      let phs : Fin nq → Fin nsv → Cx Rat := fun n l =>
+        ⟨phv.getD ((n.1 * nsv + l.1) * 2) 0, phv.getD ((n.1 * nsv + l.1) * 2 + 1) 0⟩
+      let mmf : Fin np → Fin np → Rat := fun i j => mm.getD (i.1 * np + j.1) 0
+      let fcf := toFC' nf ns fc
+      let out : Array Rat := Id.run do
+        let mut out : Array Rat := Array.mkEmpty (nq * np * np * 18)
+        for idx in [0:nq * np * np * 9] do
+          let z := dynmatBatchFlat T phs mmf fcf idx
+          out := (out.push z.re).push z.im
+        pure out
+      pure (showRats out)
+    | "freq" =>
+      let (factor, c) ← c.rat?
+      let (n, c) ← c.nat?
+      let (v, c) ← c.rats? (n * 2)
+      if !c.atEnd then none
+      pure (showRats (Array.ofFn (n := n) fun k =>
+        frequency (fun _ => v.getD (k.1 * 2 + 1) 0) factor (v.getD (k.1 * 2) 0)))
+    | "ptgops" =>
+      let (tr, c) ← c.nat?
+      let (n, c) ← c.nat?
+      let (v, c) ← c.ints? (n * 9)
+      if !c.atEnd then none
+      if tr > 1 then none
+      let rots : List RecipOps.M3 := (List.range n).map fun r => fun i j => v.getD (r * 9 + i.1 * 3 + j.1) 0
+      let (p, rr) := RecipOps.pointgroupOps rots (tr == 1)
+      let flat (l : List RecipOps.M3) : String :=
+        " ".intercalate (l.map fun m => " ".intercalate ((List.finRange 3).flatMap fun i => (List.finRange 3).map fun j => toString (m i j)))
+      pure (toString (RecipOps.isGroupOk rots) ++ " " ++ toString p.length ++ " " ++ flat p ++ " | " ++ toString rr.length ++ " " ++ flat rr)
     | "denseadrs" =>
       let (ns, c) ← c.nat?
       let (np, c) ← c.nat?
